@@ -127,13 +127,13 @@ Section R56.
 
   (** a dictionary whose U and UE were written by Algorithm 8 for the (prepared) user password opens with it and the
       decoder holds the file key *)
-  Theorem open_user_56 : forall fuel d id0 upw p R m ms hv hk vs ks fk oe,
+  Lemma open_user_56_eq : forall fuel d id0 upw p R m ms hv hk vs ks fk oe,
     std_56_dict d R m ms -> PREP upw = Some p ->
     lenN vs = 8 -> lenN ks = 8 -> lenN fk = 32 ->
     HASH R fuel (pw56 p) vs [] = Some hv -> HASH R fuel (pw56 p) ks [] = Some hk ->
     d_u d = alg8_U hv vs ks -> d_ue d = Some (alg8_UE AESE hk fk) ->
     lenN (d_o d) = 48 -> d_oe d = Some oe -> lenN oe mod 16 = 0 ->
-    opens_with (FP fuel d id0 upw) 32 fk m ms (em_of d).
+    FP fuel d id0 upw = Ok (decoder_with fk 32 m ms (em_of d)).
   Proof.
     intros fuel d id0 upw p R m ms hv hk vs ks fk oe Hd Hp Lvs Lks Lfk Hhv Hhk HU HUE LO HOE Loe.
     pose proof (hash56_len _ _ _ _ _ _ Hhv) as Lhv.
@@ -145,21 +145,33 @@ Section R56.
       rewrite layout_vsalt, layout_ksalt, layout_hash by assumption.
       rewrite Hhv, bytes_eqb_refl, Hhk. unfold alg8_UE. rewrite aes_inv by (rewrite Lfk; reflexivity). reflexivity. }
     rewrite (from_password_56_refines fuel R m ms d upw p _ oe _ None Hp LU LO HUE HOE Lue Loe Hu) by discriminate.
-    unfold finish56. rewrite Lfk. cbn [N.eqb Pos.eqb negb]. eexists. split; [reflexivity|].
-    cbn [decoder_with k_size k_key k_method k_smethod k_enc_obj k_meta_obj k_em].
+    unfold finish56. rewrite Lfk. reflexivity.
+  Qed.
+
+  Theorem open_user_56 : forall fuel d id0 upw p R m ms hv hk vs ks fk oe,
+    std_56_dict d R m ms -> PREP upw = Some p ->
+    lenN vs = 8 -> lenN ks = 8 -> lenN fk = 32 ->
+    HASH R fuel (pw56 p) vs [] = Some hv -> HASH R fuel (pw56 p) ks [] = Some hk ->
+    d_u d = alg8_U hv vs ks -> d_ue d = Some (alg8_UE AESE hk fk) ->
+    lenN (d_o d) = 48 -> d_oe d = Some oe -> lenN oe mod 16 = 0 ->
+    opens_with (FP fuel d id0 upw) 32 fk m ms (em_of d).
+  Proof.
+    intros fuel d id0 upw p R m ms hv hk vs ks fk oe Hd Hp Lvs Lks Lfk Hhv Hhk HU HUE LO HOE Loe.
+    rewrite (open_user_56_eq fuel d id0 upw p R m ms hv hk vs ks fk oe Hd Hp Lvs Lks Lfk Hhv Hhk HU HUE LO HOE Loe).
+    eexists. split; [reflexivity|]. cbn [decoder_with k_size k_key k_method k_smethod k_enc_obj k_meta_obj k_em].
     repeat split; try reflexivity. apply take_all. lia.
   Qed.
 
   (** a dictionary whose O and OE were written by Algorithm 9 for the (prepared) owner password opens with it and the decoder
       holds the file key (premise: the owner password is not also accepted as the user password) *)
-  Theorem open_owner_56 : forall fuel d id0 opw p R m ms hx ho hk vs ks fk ue,
+  Lemma open_owner_56_eq : forall fuel d id0 opw p R m ms hx ho hk vs ks fk ue,
     std_56_dict d R m ms -> PREP opw = Some p ->
     lenN vs = 8 -> lenN ks = 8 -> lenN fk = 32 ->
     lenN (d_u d) = 48 -> d_ue d = Some ue -> lenN ue mod 16 = 0 ->
     HASH R fuel (pw56 p) (vsalt (d_u d)) [] = Some hx -> hx <> take 32 (d_u d) ->
     HASH R fuel (pw56 p) vs (d_u d) = Some ho -> HASH R fuel (pw56 p) ks (d_u d) = Some hk ->
     d_o d = alg9_O ho vs ks -> d_oe d = Some (alg9_OE AESE hk fk) ->
-    opens_with (FP fuel d id0 opw) 32 fk m ms (em_of d).
+    FP fuel d id0 opw = Ok (decoder_with fk 32 m ms (em_of d)).
   Proof.
     intros fuel d id0 opw p R m ms hx ho hk vs ks fk ue Hd Hp Lvs Lks Lfk LU HUE Lue Hhx Hne Hho Hhk HO HOE.
     pose proof (hash56_len _ _ _ _ _ _ Hho) as Lho.
@@ -173,8 +185,21 @@ Section R56.
       rewrite layout_vsalt, layout_ksalt, layout_hash by assumption.
       rewrite Hho, bytes_eqb_refl, Hhk. unfold alg9_OE. rewrite aes_inv by (rewrite Lfk; reflexivity). reflexivity. }
     rewrite (from_password_56_refines fuel R m ms d opw p ue _ _ _ Hp LU LO HUE HOE Lue Loe Hu (fun _ => Ho)).
-    unfold result56, finish56. rewrite Lfk. cbn [N.eqb Pos.eqb negb]. eexists. split; [reflexivity|].
-    cbn [decoder_with k_size k_key k_method k_smethod k_enc_obj k_meta_obj k_em].
+    unfold result56, finish56. rewrite Lfk. reflexivity.
+  Qed.
+
+  Theorem open_owner_56 : forall fuel d id0 opw p R m ms hx ho hk vs ks fk ue,
+    std_56_dict d R m ms -> PREP opw = Some p ->
+    lenN vs = 8 -> lenN ks = 8 -> lenN fk = 32 ->
+    lenN (d_u d) = 48 -> d_ue d = Some ue -> lenN ue mod 16 = 0 ->
+    HASH R fuel (pw56 p) (vsalt (d_u d)) [] = Some hx -> hx <> take 32 (d_u d) ->
+    HASH R fuel (pw56 p) vs (d_u d) = Some ho -> HASH R fuel (pw56 p) ks (d_u d) = Some hk ->
+    d_o d = alg9_O ho vs ks -> d_oe d = Some (alg9_OE AESE hk fk) ->
+    opens_with (FP fuel d id0 opw) 32 fk m ms (em_of d).
+  Proof.
+    intros fuel d id0 opw p R m ms hx ho hk vs ks fk ue Hd Hp Lvs Lks Lfk LU HUE Lue Hhx Hne Hho Hhk HO HOE.
+    rewrite (open_owner_56_eq fuel d id0 opw p R m ms hx ho hk vs ks fk ue Hd Hp Lvs Lks Lfk LU HUE Lue Hhx Hne Hho Hhk HO HOE).
+    eexists. split; [reflexivity|]. cbn [decoder_with k_size k_key k_method k_smethod k_enc_obj k_meta_obj k_em].
     repeat split; try reflexivity. apply take_all. lia.
   Qed.
 
@@ -221,5 +246,26 @@ Section R56.
         * intros H. exists k. split; [exact H|right; split; reflexivity].
         * intros (k' & Hk & [H|[_ H]]); [discriminate|inversion H; subst k'; exact Hk].
       + split; [intros [dc H]; discriminate|intros (k' & _ & [H|[_ H]]); discriminate].
+  Qed.
+  (** revisions 5/6, end to end: the decoder an Algorithm-8/9 dictionary opens with reads back, as plaintext, every stream
+      (under /StmF's method) and every string (under /StrF's method) a conforming writer stored under the 32-byte file key;
+      [Hmd5]: MD5 is not used by AES-256 / Identity, the law is only needed to instantiate the plaintext theorems *)
+  Theorem opened_56_reads : forall (Hmd5 : forall x, length (MD5 x) = 16%nat) r fk m ms em,
+    r = Ok (decoder_with fk 32 m ms em) -> lenN fk = 32 -> meth_fits 32 m -> meth_fits 32 ms ->
+    exists dc, r = Ok dc /\
+      forall enc meta num gen iv data, lenN iv = 16 ->
+        let dc' := install dc enc meta in
+        decrypt md5 aes_dec dc' num gen (protect_bytes MD5 AESE m fk enc meta (negb (k_em dc)) num gen iv data) = Ok data /\
+        ctx_decrypt md5 aes_dec (Some dc') num gen (protect_bytes MD5 AESE ms fk enc meta (negb (k_em dc)) num gen iv data) = Ok data.
+  Proof.
+    intros Hmd5 r fk m ms em Hr Lfk Fm Fms. exists (decoder_with fk 32 m ms em). split; [exact Hr|].
+    intros enc meta num gen iv data Hiv dc'.
+    assert (Hfit : forall x, meth_fits 32 x -> key_fits dc' fk x).
+    { intros x Hx. destruct x; cbn [meth_fits key_fits] in *; [exact I|lia|lia|]. split; [exact Lfk|reflexivity]. }
+    assert (Hfor : decoder_for dc' fk m ms).
+    { split; [reflexivity|]. split; [reflexivity|]. split; apply Hfit; assumption. }
+    split.
+    - exact (plaintext MD5 AESE AESD Hmd5 aes_inv aes_len dc' fk m ms num gen iv data Hfor Hiv).
+    - exact (plaintext_string MD5 AESE AESD Hmd5 aes_inv aes_len dc' fk m ms num gen iv data Hfor Hiv).
   Qed.
 End R56.
